@@ -142,13 +142,39 @@ def rewrite_runs(prop, tier, model, bres, chk, n_quick, n_thorough, stream='rewr
                 mutated['sul']['set_identifier'] = newid
                 muts.append(f'storage_unit_label.sequence_number = {newseq}; .set_identifier = {newid!r}')
             kw2 = dict(output_chunk_size=2**20)
+            # the data type of a channel changes between the writes: either the declared cast (public setter) or the
+            # dtype of the arrays handed in (the declared / first-derived type stays and the new values are cast to it);
+            # values are small whole numbers, exact in every supported type
+            special = {}
+            for (li, oi, arr) in b.arrays:
+                o = spec['lfs'][li]['objects'][oi]
+                if o.get('index_like') is None and R.random() < 0.2:
+                    eff = o.get('cast_dtype') or o['dtype']
+                    m = mutated['lfs'][li]['objects'][oi]
+                    if R.random() < 0.5:
+                        newcast = R.choice([d for d in filegen.DTYPES if d != eff])
+                        b.handles[li][oi].cast_dtype = getattr(np, newcast)
+                        m['cast_dtype'] = newcast
+                        newdata = np.array([R.randrange(0, 100) for _ in range(arr.size)]).reshape(arr.shape).astype(o['dtype'])
+                        muts.append(f'logical file {li} channel #{oi}.cast_dtype = {newcast} (was {eff}); other data')
+                    else:
+                        newd = R.choice([d for d in filegen.DTYPES if d != o['dtype']])
+                        newdata = np.array([R.randrange(0, 100) for _ in range(arr.size)]).reshape(arr.shape).astype(newd)
+                        m['dtype'] = newd
+                        m['cast_dtype'] = eff
+                        muts.append(f'second write: data of dtype {newd} for channel #{oi} of logical file {li} (was {o["dtype"]}, '
+                                    f'written as {eff})')
+                    m['data'] = newdata
+                    special[(li, oi)] = newdata
             if dk == 'dict':
                 # other arrays (same names, shapes and dtypes) are handed to the second write
                 d2 = {}
                 for (li, oi, arr) in b.arrays:
                     o = spec['lfs'][li]['objects'][oi]
                     key = next(k for k, v in b.data.items() if v is arr)
-                    if R.random() < 0.7:
+                    if (li, oi) in special:
+                        d2[key] = special[(li, oi)]
+                    elif R.random() < 0.7:
                         newdata = filegen.gen_data(R, o['dtype'], o['width'], o['data'].shape[0], o.get('index_like'))
                         if o.get('cast_dtype'):
                             newdata = (np.array([R.randrange(0, 100) for _ in range(newdata.size)]).reshape(newdata.shape)).astype(o['dtype'])
@@ -158,12 +184,14 @@ def rewrite_runs(prop, tier, model, bres, chk, n_quick, n_thorough, stream='rewr
                     else:
                         d2[key] = arr
                 kw2['data'] = d2
-            elif R.random() < 0.5:
+            elif special or R.random() < 0.5:
                 # channels created with their data; the second write is handed other arrays for some of them under the
                 # same data set names: what is passed to write() takes precedence
                 d2 = {}
                 for (li, oi, arr) in b.arrays:
-                    if R.random() < 0.6:
+                    if (li, oi) in special:
+                        d2[b.handles[li][oi].dataset_name] = special[(li, oi)]
+                    elif R.random() < 0.6:
                         o = spec['lfs'][li]['objects'][oi]
                         newdata = filegen.gen_data(R, o['dtype'], o['width'], o['data'].shape[0], o.get('index_like'))
                         if o.get('cast_dtype'):
